@@ -181,12 +181,39 @@ def guards(ctx, f_init, f_solve):
     an = local_stored_in_attr(f_init.node, "current_A_applied") or "current_A_applied"
     ok = len(hit) == 1 and rename_id(norm(hit[0][1][-1][0].test), an, "APPLIED").replace(" ", "") in (
         "APPLIED.shape!=self.edge_centers.shape", "self.edge_centers.shape!=APPLIED.shape")
+    if not ok and len(hit) == 1:
+        # the same guard on another local that holds the evaluated potential (`X.shape != self.edge_centers.shape`, X computed from
+        # self.applied_vector_potential(...))
+        from ..dataflow import expanded_text
+        t_ = hit[0][1][-1][0].test
+        if isinstance(t_, ast.Compare) and len(t_.ops) == 1 and isinstance(t_.ops[0], ast.NotEq):
+            sides = [t_.left, t_.comparators[0]]
+            ec = [x for x in sides if norm(x) == "self.edge_centers.shape"]
+            ot = [x for x in sides if norm(x) != "self.edge_centers.shape"]
+            from ..dataflow import assignments as _asg
+            def _from_potential(e):
+                if "self.applied_vector_potential(" in expanded_text(f_init.node, e):
+                    return True
+                return isinstance(e, ast.Name) and any(v is not None and "self.applied_vector_potential(" in expanded_text(f_init.node, v)
+                                                       for _, v in _asg(f_init.node).get(e.id, []))
+            ok = len(ec) == 1 and len(ot) == 1 and isinstance(ot[0], ast.Attribute) and ot[0].attr == "shape" and _from_potential(ot[0].value)
     ctx.ob("R19.3", "vector potential of the wrong shape is rejected", ok, detail=[norm(g[-1][0].test) for _, g in hit],
            where=f_init.fq, construct="vector potential shape guard", message="no shape guard on the evaluated vector potential",
            consequence="a mis-shaped vector potential is broadcast silently")
     # empty terminal
     hit = find(lambda t: "length" in t and "== 0" in t)
     ok = len(hit) == 1 and any(isinstance(g, ast.For) for g, _ in guards_of(f_init.node, hit[0][0], parent_map(f_init.node)))
+    if not ok:
+        # the same search written as an expression: `bad = next((t for t in <terminals> if t.length == 0), None)` / any(...) guarding a raise
+        for n_ in own_nodes(f_init.node):
+            if isinstance(n_, ast.Assign) and len(n_.targets) == 1 and isinstance(n_.targets[0], ast.Name):
+                gens = [g_ for g_ in ast.walk(n_.value) if isinstance(g_, (ast.GeneratorExp, ast.ListComp)) and len(g_.generators) == 1
+                        and "terminal_info" in norm(g_.generators[0].iter)
+                        and any("length" in norm(c_) and "== 0" in norm(c_) for c_ in list(g_.generators[0].ifs) + [g_.elt])]
+                users = [(n2, gs2) for n2, gs2 in rg if gs2 and n_.targets[0].id in norm(gs2[-1][0].test)]
+                if gens and users:
+                    ok = True
+                    hit = users
     ctx.ob("R19.3", "a terminal touching no boundary edge (length == 0) is rejected, for every terminal", ok,
            detail=[norm(g[-1][0].test) for _, g in hit], where=f_init.fq, construct="empty terminal guard",
            message="no length == 0 guard inside a loop over terminals", consequence="division by zero terminal length: inf/NaN current density")
@@ -198,41 +225,7 @@ def guards(ctx, f_init, f_solve):
            detail=[norm(v) for v in vc], where=f_init.fq, construct="validate_terminal_currents call", message="terminal currents are not validated unconditionally",
            consequence="unbalanced currents reach the Poisson solve (singular system, unbounded potential)")
     fv = repo.func(SOLVER, "validate_terminal_currents")
-    inner = [g for g in repo.module(SOLVER).functions.values() if g.parent is fv]
-    unknown_ok = False
-    balance = []
-    for g in [fv] + inner:
-        for n, gs in raise_guards(g):
-            if not gs:
-                continue
-            t = gs[-1][0].test
-            txt = norm(t)
-            if "difference" in txt or ("set(" in txt and "-" in txt):
-                unknown_ok = True
-            if "total" in txt or "sum" in txt:
-                balance.append((g, t))
-    ctx.ob("R19.3", "unknown terminal names are rejected (key set difference)", unknown_ok, where=fv.fq, construct="unknown terminal guard",
-           message="no guard on unknown terminal names", consequence="a misspelt terminal silently carries no current")
-    ok = len(balance) >= 1
-    det = {}
-    if ok:
-        g, t = balance[0]
-        kind = classify_zero_test(t, {"total_current"})
-        tol = [c.value for c in ast.walk(t) if isinstance(c, ast.Constant) and isinstance(c.value, float)]
-        # also look at the definitions feeding the test
-        for n in own_nodes(g.node):
-            if isinstance(n, ast.Assign):
-                tol += [c.value for c in ast.walk(n.value) if isinstance(c, ast.Constant) and isinstance(c.value, float) and c.value < 1]
-        det = {"test": norm(t), "kind": kind, "tolerances": tol}
-        ok = kind == "exact" or (kind == "tolerance" and tol and max(tol) <= 1e-7)
-    ctx.ob("R19.3", "unbalanced currents are rejected down to one part in 1e6 (exact test, or tolerance <= 1e-7 relative)", ok,
-           detail=det, where=fv.fq, construct="balance guard strength", message=f"balance guard: {det}",
-           consequence="an imbalance of 1e-6 of the drive is accepted")
-    called = [n for n in ast.walk(fv.node) if isinstance(n, ast.Call) and norm(n.func) == "check_total_current"]
-    in_loop = [c for c in called if any(isinstance(g, ast.For) for g, _ in guards_of(fv.node, _stmt(fv.node, c), parent_map(fv.node)))]
-    ctx.ob("R19.3", "callable currents are checked at sampled times, dict currents once", len(called) == 2 and len(in_loop) == 1,
-           detail=[norm(c) for c in called], where=fv.fq, construct="validator dispatch", message="validator does not cover both input forms",
-           consequence="time-dependent terminal currents are never checked")
+    terminal_current_validator(ctx, fv)
     # seed device
     rs = raise_guards(f_solve)
     hit = [(n, gs) for n, gs in rs if gs and "seed_solution.device" in norm(gs[-1][0].test) and "!=" in norm(gs[-1][0].test)]
@@ -397,3 +390,76 @@ def option_ranges(ctx):
     ok = outcomes == {(1e-3, 1e-1): "return", (1e-1, 1e-1): "return", (0.2, 1e-1): "raise"}
     ctx.ob("R19.3", "dt_init <= dt_max enforced (equality accepted)", ok, detail={f"dt_init={k[0]} dt_max={k[1]}": v for k, v in outcomes.items()}, where=fv.fq,
            construct="dt_init <= dt_max", message=f"dt_init / dt_max samples: {outcomes}", consequence="an initial step above the cap is accepted")
+
+
+def terminal_current_validator(ctx, fv):
+    """R19.3: validate_terminal_currents followed (pvs/smallstep.py) on concrete inputs: balanced / unbalanced / misspelt dict
+    currents, and callable currents that are balanced at every time or unbalanced at every time."""
+    from ..smallstep import Machine, Opaque as SO, module_constants, Closure
+    params = [a.arg for a in fv.node.args.args]
+    if params[:3] != ["terminal_currents", "terminal_info", "solver_options"]:
+        raise AnalysisError(f"validate_terminal_currents has the parameters {params}")
+    info = [SO("term_a"), SO("term_b")]
+    n_calls = [0]
+
+    def run(currents):
+        n_calls[0] = 0
+
+        def attrs(text):
+            if text in ("term_a.name", "term_b.name"):
+                return text[5]
+            if text.endswith("solve_time"):
+                return 10.0
+            return NotImplemented
+
+        def call(m, node, name, args, kwargs):
+            short = name.split(".")[-1]
+            if name == "callable" and len(args) == 1:
+                return isinstance(args[0], SO) and args[0].text == "CURRENT_FUNCTION"
+            if name == "CURRENT_FUNCTION":
+                n_calls[0] += 1
+                return dict(currents["value"])
+            if name.endswith("default_rng"):
+                return SO("rng")
+            if name == "rng.random":
+                return SO("u")
+            if name == "sum" and len(args) == 1 and isinstance(args[0], (list, tuple)) and all(isinstance(x, (int, float)) for x in args[0]):
+                return sum(args[0])
+            if name == "set" and args and isinstance(args[0], list) and all(isinstance(x, str) for x in args[0]):
+                return frozenset(args[0])
+            if short in ("difference",) and isinstance(m.callee(node.func)[1], frozenset) and args:
+                return frozenset(m.callee(node.func)[1]) - frozenset(args[0])
+            return NotImplemented
+        env = dict(module_constants(fv.module.tree))
+        env.update({"terminal_currents": SO("CURRENT_FUNCTION") if currents["callable"] else dict(currents["value"]),
+                    "terminal_info": list(info), "solver_options": SO("solver_options")})
+        if "num_evals" in params:
+            env["num_evals"] = 3
+        mach = Machine(env, attrs, call, fuel=16, undecided=None)
+
+        def iterate(v, node):
+            # the sampled times: three of them
+            return [SO("t0"), SO("t1"), SO("t2")]
+        mach.iterate = iterate
+        return mach.run_function(fv.node)
+    cases = [("balanced dict", {"callable": False, "value": {"a": 1.0, "b": -1.0}}, "return"),
+             ("unbalanced dict (1e-6 of the drive)", {"callable": False, "value": {"a": 1.0, "b": -1.0 + 1e-6}}, "raise"),
+             ("misspelt terminal in a dict", {"callable": False, "value": {"a": 1.0, "x": -1.0}}, "raise"),
+             ("balanced function of time", {"callable": True, "value": {"a": 2.0, "b": -2.0}}, "return"),
+             ("unbalanced function of time", {"callable": True, "value": {"a": 2.0, "b": -1.0}}, "raise"),
+             ("function of time naming an unknown terminal", {"callable": True, "value": {"a": 2.0, "x": -2.0}}, "raise")]
+    res = {}
+    for what, cur, want in cases:
+        kind, val = run(cur)
+        res[what] = (kind, want, n_calls[0])
+    unknown_ok = all(res[k][0] == res[k][1] for k in res if "misspelt" in k or "unknown" in k)
+    balance_ok = all(res[k][0] == res[k][1] for k in res if "balanced" in k)
+    sampled = res["balanced function of time"][2] >= 2 and res["balanced dict"][2] == 0
+    ctx.ob("R19.3", "unknown terminal names are rejected (key set difference)", unknown_ok, detail={k: v[0] for k, v in res.items()}, where=fv.fq,
+           construct="unknown terminal guard", message=f"no guard on unknown terminal names: {res}", consequence="a misspelt terminal silently carries no current")
+    ctx.ob("R19.3", "unbalanced currents are rejected down to one part in 1e6 (exact test, or tolerance <= 1e-7 relative)", balance_ok,
+           detail={k: v[0] for k, v in res.items()}, where=fv.fq, construct="balance guard strength", message=f"balance guard: {res}",
+           consequence="an imbalance of 1e-6 of the drive is accepted")
+    ctx.ob("R19.3", "callable currents are checked at sampled times, dict currents once", sampled and balance_ok,
+           detail={k: v[2] for k, v in res.items()}, where=fv.fq, construct="validator dispatch", message=f"validator does not cover both input forms: {res}",
+           consequence="time-dependent terminal currents are never checked")
